@@ -242,6 +242,16 @@ class Ctx(object):
                                                  "shared between calls or objects): " + v.message))
         except hypothesis.errors.HypothesisException as exc:
             raise HarnessError("sub-check %s: %s: %s" % (name, type(exc).__name__, exc))
+        except Exception as exc:  # noqa
+            # the engine itself tripped (seen: "ValueError: 95 is not in list" inside the shrinker) after the property had failed
+            # with a Violation: that happens when replaying a case gives another outcome than before, i.e. the verdict depends on
+            # what ran earlier in the process.  Without a recorded Violation it is a harness error.
+            if state["fail"] is None:
+                raise HarnessError("sub-check %s: %s: %s" % (name, type(exc).__name__, exc))
+            case, v = state["fail"]
+            seq = {"__sequence__": state.get("history", [])[-40:] + [case]}
+            self._violation(name, seq, Violation("order-dependent/" + v.bucket, "the case fails only after earlier cases ran in the same process (state "
+                                                 "shared between calls or objects; the generator engine could not replay it: %s): %s" % (type(exc).__name__, v.message)))
         sub.wall += time.time() - t0
 
     # ---- deterministic enumeration ----------------------------------------------------------------------------
